@@ -955,3 +955,86 @@ def resolved_path_conditions(g, trail):
                     last_store[w.id] = i
                     env.pop(w.id, None)
     return out, feasible
+
+
+# ---------------------------------------------------------------------- a local that shadows a module-level name
+def shadowed_globals(p, f):
+    """[(load node, name, first store node)] - names that function f binds somewhere (so they are LOCAL for the whole function) but that are also module-level
+    names of its module (an import, a function, a class, a constant) and are read at a point that a path from the function's entry reaches without passing any
+    binding: that read raises UnboundLocalError instead of using the module-level object"""
+    fn = f.node
+    if any(isinstance(n, (ast.Global, ast.Nonlocal)) for n in walk_no_nested(fn)):
+        declared = {nm for n in walk_no_nested(fn) if isinstance(n, (ast.Global, ast.Nonlocal)) for nm in n.names}
+    else:
+        declared = set()
+    m = f.module
+    module_names = set(m.imports) | {n.name for n in m.tree.body if isinstance(n, (ast.FunctionDef, ast.AsyncFunctionDef, ast.ClassDef))} | {t.id for n in m.tree.body if isinstance(n, ast.Assign) for t in n.targets if isinstance(t, ast.Name)}
+    params = set(f.params) | set(f.kwonly) | ({f.vararg} if f.vararg else set()) | ({f.kwarg} if f.kwarg else set())
+    stores = {}
+    for n in walk_no_nested(fn):
+        if isinstance(n, ast.Name) and isinstance(n.ctx, (ast.Store, ast.Del)):
+            stores.setdefault(n.id, []).append(n)
+        elif isinstance(n, (ast.Import, ast.ImportFrom)):
+            for a in n.names:
+                stores.setdefault((a.asname or a.name).split(".")[0], []).append(n)
+        elif isinstance(n, ast.ExceptHandler) and n.name:
+            stores.setdefault(n.name, []).append(n)
+    cands = [nm for nm in stores if nm in module_names and nm not in params and nm not in declared]
+    if not cands:
+        return []
+    g = cfg_of(f)
+    out = []
+    for nm in cands:
+        store_nodes = set()
+        for s in stores[nm]:
+            try:
+                store_nodes.add(g.node_for(s).id)
+            except AnalysisError:
+                pass
+        for n in walk_no_nested(fn):
+            if isinstance(n, ast.Name) and n.id == nm and isinstance(n.ctx, ast.Load):
+                # comprehension variables are their own scope
+                if any(isinstance(a, (ast.ListComp, ast.SetComp, ast.DictComp, ast.GeneratorExp)) and any(isinstance(t, ast.Name) and t.id == nm for gen in a.generators for t in ast.walk(gen.target)) for a in _ancestors(n)):
+                    continue
+                try:
+                    ln = g.node_for(n)
+                except AnalysisError:
+                    continue
+                if ln.id in store_nodes:
+                    # `x = x + 1` style: the read happens before the store of the same statement
+                    pass
+                path = g.find_path(g.entry, {ln.id}, avoid=store_nodes - {ln.id})
+                if path is not None or ln.id in store_nodes and g.find_path(g.entry, {ln.id}, avoid=store_nodes - {ln.id}) is not None:
+                    out.append((n, nm, stores[nm][0]))
+                    break
+    return out
+
+
+def _ancestors(n):
+    x = parent(n)
+    while x is not None:
+        yield x
+        x = parent(x)
+
+
+def shadowed_global_rule(report, p, rid):
+    r = report.rule(
+        rid,
+        "no function binds a local under the name of a module-level object it also needs (an imported module such as `errors`, a function, a constant): a binding ANYWHERE "
+        "in the function makes the name local for the whole function, and every read that can execute before the binding raises UnboundLocalError - typically on the "
+        "error path (`raise errors.X(...)`), which turns a dedicated exit code into a traceback with exit 1",
+        3,
+    )
+    n_funcs = 0
+    for q, f in sorted(p.funcs.items()):
+        if not f.module.name.startswith("ascmhl") or f.module.name in unshipped_modules(p):
+            continue
+        n_funcs += 1
+        for load, nm, store in shadowed_globals(p, f):
+            r.instance(f, load, f"{f.name}: {nm}")
+            r.check(False, f, load, f"`{nm}` is read here as the module-level `{nm}` of {f.module.name.split('.')[-1]}, but line {getattr(store, 'lineno', '?')} of the same function binds a local `{nm}`: the name is local throughout {f.name}, so this read raises UnboundLocalError whenever it executes before that line (e.g. `raise {nm}.…` on an early error path gives exit 1 and a traceback instead of the command's exit code)", construct=f"{f.name}: local `{nm}` shadows the module-level name")
+    r.instance(None, None, f"{n_funcs} shipped functions scanned for locals that shadow module-level names")
+    r.instance(None, None, "scoping rule: CPython decides local / global per function at compile time")
+    r.instance(None, None, "reads are judged by reachability from the function entry without passing a binding")
+    r.check(True, None, None, "")
+    return r
